@@ -232,6 +232,7 @@ class Models:
                 if new != old:
                     I.store(st, addr, new)
         val = self.result_value(I, np, site, rargs, dt)
+        ev['res'] = val
         if is_agg(val):
             for f in agg_fields(val):
                 I.kill_facts_about(st, f)
@@ -255,7 +256,8 @@ class Models:
         site = SITE(fr.key, fr.bb)
         rargs = [I.resolve(st, a) for a in cargs]
         rc = I.resolve(st, callee)
-        I.emit(st, fr, {'k': 'usercb', 'callee': rc, 'args': rargs, 'raw_args': list(cargs)})
+        cbev = {'k': 'usercb', 'callee': rc, 'args': rargs, 'raw_args': list(cargs)}
+        I.emit(st, fr, cbev)
         for i, a in enumerate(cargs):
             if a is None or not is_ptr(a):
                 continue
@@ -273,6 +275,7 @@ class Models:
         else:
             val = SYM('cb', site, rc, *[r for r in rargs if r is not None])
             I.kill_facts_about(st, val)
+        cbev['res'] = val
         return self.finish(I, st, fr, t, cont, val)
 
     # ------------------------------------------------------ native continuations
